@@ -92,10 +92,10 @@ type Case struct {
 	BufSize     int      `json:"buf"`
 	SyncOnWrite bool     `json:"sow"`
 	Ops         []Op     `json:"ops"`
-	Live        bool     `json:"live"` // full replay on the live manager after Sync instead of after Close+Open
-	Cuts        []uint32 `json:"cuts"` // drawn truncation offsets (mod size+1) used when the file is not enumerated completely
-	ExhLimit    int      `json:"exh"`  // enumerate every offset when the cut segment is at most this long
-	Tail        Rec      `json:"tail"` // record appended after recovery
+	Live        bool     `json:"live"`             // full replay on the live manager after Sync instead of after Close+Open
+	Cuts        []uint32 `json:"cuts"`             // drawn truncation offsets (mod size+1) used when the file is not enumerated completely
+	ExhLimit    int      `json:"exh"`              // enumerate every offset when the cut segment is at most this long
+	Tail        Rec      `json:"tail"`             // record appended after recovery
 	Budget      int      `json:"budget,omitempty"` // work budget of the cut phase in MiB of buffers allocated/read (default 600)
 	// Excl lists the open known findings the generator steered away from (see FINDINGS.md):
 	// "hdr-tail": cuts 1..3 bytes into a length header skip the append-after-recovery step.
